@@ -156,6 +156,8 @@ def _qua_pipeline_valid(self, doc, c) -> str:
         return "last lane unused"
     if any("Bpm" not in t for t in doc["tps"]) or not doc["tps"]:
         return "tempo point without Bpm"
+    if any(isinstance(v, str) and ("\n" in v or "\r" in v) for v in doc["meta"].values()):
+        return "line break inside a header value"
     if c.get("grid"):
         tempo = sorted((t.get("StartTime", 0), t["Bpm"]) for t in doc["tps"])
         if c.get("t0_zero") and tempo[0][0] != 0:
